@@ -563,6 +563,13 @@ structure Plan where
 		fmt.Fprintf(&sb, "  (%s, %s, %s)", leanStr(n), c12LeanStrs(ps), c12LeanStrs(us))
 	}
 	sb.WriteString("\n]\n\n")
+	var kfs []string
+	for _, n := range sortedKeys(keyFns) {
+		if n != "" && n != "scan" {
+			kfs = append(kfs, n)
+		}
+	}
+	sb.WriteString(c.c12KeyLayoutLean(kfs))
 
 	dels := map[string][]string{}
 	sb.WriteString("/-- `k.Delete…` calls of the sites that remove a stored object, in source order -/\ndef deleteSites : List (String × List String) := [\n")
@@ -660,4 +667,131 @@ func (c *ctxT) c12ProtoSigners(msgs []string) [][2]string {
 		out = append(out, [2]string{n, found[n]})
 	}
 	return out
+}
+
+// ---- byte layout of the key functions ------------------------------------------------------------------------------
+
+type c12KeyPart struct {
+	Kind string `json:"kind"` // const | text | be8 | addr | other
+	Arg  string `json:"arg"`
+}
+
+// flattenAppend flattens nested `append(a, b...)` into the sequence of concatenated parts.
+func (c *ctxT) flattenAppend(e ast.Expr, params map[string]bool) []c12KeyPart {
+	switch x := e.(type) {
+	case *ast.Ident:
+		if params[x.Name] {
+			return []c12KeyPart{{"other", x.Name}}
+		}
+		return []c12KeyPart{{"const", x.Name}}
+	case *ast.CallExpr:
+		fn := solWS.ReplaceAllString(c.src(x.Fun), "")
+		switch {
+		case fn == "append" && len(x.Args) == 2 && x.Ellipsis.IsValid():
+			return append(c.flattenAppend(x.Args[0], params), c.flattenAppend(x.Args[1], params)...)
+		case fn == "[]byte" && len(x.Args) == 1:
+			if id, ok := x.Args[0].(*ast.Ident); ok && params[id.Name] {
+				return []c12KeyPart{{"text", id.Name}}
+			}
+		case fn == "sdk.Uint64ToBigEndian" && len(x.Args) == 1:
+			if id, ok := x.Args[0].(*ast.Ident); ok && params[id.Name] {
+				return []c12KeyPart{{"be8", id.Name}}
+			}
+		case strings.HasSuffix(fn, ".Bytes") && len(x.Args) == 0:
+			if se, ok := x.Fun.(*ast.SelectorExpr); ok {
+				if id, ok := se.X.(*ast.Ident); ok && params[id.Name] {
+					return []c12KeyPart{{"addr", id.Name}}
+				}
+			}
+		}
+	}
+	return []c12KeyPart{{"other", solWS.ReplaceAllString(c.src(e), " ")}}
+}
+
+// c12KeyParts: the parts a key function concatenates (its body must be a single return of nested appends).
+func (c *ctxT) c12KeyParts(name string) []c12KeyPart {
+	fd := c.keyFnDecl(name)
+	if fd == nil || fd.Body == nil {
+		return nil
+	}
+	names, _ := c.fnParams(fd)
+	params := map[string]bool{}
+	for _, n := range names {
+		params[n] = true
+	}
+	if len(fd.Body.List) != 1 {
+		return []c12KeyPart{{"other", fmt.Sprintf("<%d statements>", len(fd.Body.List))}}
+	}
+	rs, ok := fd.Body.List[0].(*ast.ReturnStmt)
+	if !ok || len(rs.Results) != 1 {
+		return []c12KeyPart{{"other", "<no single return>"}}
+	}
+	return c.flattenAppend(rs.Results[0], params)
+}
+
+// c12KeyPrefix: bytes of a `Name = []byte{0x..}` declaration of x/crosschain/types
+func (c *ctxT) c12KeyPrefix(name string) []byte {
+	for _, f := range c.pkg("x/crosschain/types") {
+		for _, d := range f.Decls {
+			gd, ok := d.(*ast.GenDecl)
+			if !ok || gd.Tok != token.VAR {
+				continue
+			}
+			for _, sp := range gd.Specs {
+				vs := sp.(*ast.ValueSpec)
+				for i, n := range vs.Names {
+					if n.Name != name || i >= len(vs.Values) {
+						continue
+					}
+					cl, ok := vs.Values[i].(*ast.CompositeLit)
+					if !ok {
+						return nil
+					}
+					var out []byte
+					for _, el := range cl.Elts {
+						if lit, ok := el.(*ast.BasicLit); ok {
+							if v, err := strconv.ParseUint(lit.Value, 0, 8); err == nil {
+								out = append(out, byte(v))
+							}
+						}
+					}
+					return out
+				}
+			}
+		}
+	}
+	return nil
+}
+
+func (c *ctxT) c12KeyLayoutLean(fns []string) string {
+	var sb strings.Builder
+	sb.WriteString("/-- what each key function concatenates, in order: `const` = a package-level prefix, `text` = []byte(<string parameter>),\n`be8` = sdk.Uint64ToBigEndian(<uint64 parameter>), `addr` = <address parameter>.Bytes() -/\ndef keyParts : List (String × List (String × String)) := [\n")
+	consts := map[string]bool{}
+	layout := map[string][]c12KeyPart{}
+	for i, fn := range fns {
+		ps := c.c12KeyParts(fn)
+		layout[fn] = ps
+		var xs []string
+		for _, p := range ps {
+			xs = append(xs, fmt.Sprintf("(%s, %s)", leanStr(p.Kind), leanStr(p.Arg)))
+			if p.Kind == "const" {
+				consts[p.Arg] = true
+			}
+		}
+		sep := ","
+		if i == len(fns)-1 {
+			sep = ""
+		}
+		fmt.Fprintf(&sb, "  (%s, %s)%s\n", leanStr(fn), leanList(xs), sep)
+	}
+	sb.WriteString("]\n\n/-- the prefix bytes -/\ndef keyPrefixes : List (String × List Nat) := [")
+	for i, n := range sortedKeys(consts) {
+		if i > 0 {
+			sb.WriteString(", ")
+		}
+		fmt.Fprintf(&sb, "(%s, %s)", leanStr(n), c12Bytes(c.c12KeyPrefix(n)))
+	}
+	sb.WriteString("]\n\n")
+	c.facts["C12.keyParts"] = layout
+	return sb.String()
 }
